@@ -46,6 +46,7 @@ type desc struct {
 	Limit int64   `json:"limit"`
 	Dly   int64   `json:"dly"`  // retry: fixed delay (units)
 	MaxD  int64   `json:"maxd"` // retry: max duration (units)
+	Wait  int64   `json:"wait"` // bulkhead: max wait time (units)
 }
 
 type outcome struct {
@@ -134,6 +135,8 @@ func projectErr(err error) term {
 	}
 	var ex retrypolicy.ExceededError
 	switch {
+	case err == error(errCoop):
+		return leaf("ECoop")
 	case err == errE1:
 		return leaf("E1")
 	case err == errE2:
@@ -198,6 +201,43 @@ type recorder struct {
 	limit   int
 	cancel  context.CancelFunc
 	runaway atomic.Bool
+	// T mode (specs/FailsafeT.tla traces): every event becomes one NDJSON line with execution id and virtual time
+	tmode bool
+	t0    time.Time
+	lines []M
+	tld   time.Duration // how long the OnTimeoutExceeded listener takes
+}
+
+type xKeyT struct{}
+
+var xKey = xKeyT{}
+
+func xOf(ctx context.Context) int {
+	if v, ok := ctx.Value(xKey).(int); ok {
+		return v
+	}
+	return 0
+}
+
+func (r *recorder) vnow() int64 {
+	d := time.Since(r.t0)
+	if d%r.unit != 0 {
+		return -1
+	}
+	return int64(d / r.unit)
+}
+
+// tline appends one trace line (T mode); fields of extra (a map) are merged into the line.
+func (r *recorder) tline(m M, extra any) {
+	if em, ok := extra.(M); ok {
+		for k, v := range em {
+			m[k] = v
+		}
+	}
+	r.mu.Lock()
+	m["t"] = r.vnow()
+	r.lines = append(r.lines, m)
+	r.mu.Unlock()
 }
 
 // registered says whether the listener that produces event `name` is registered in this variant. Unregistered
@@ -233,16 +273,33 @@ func (r *recorder) add(e fsEvent) {
 }
 
 func (r *recorder) attempt(name string, layer int, a failsafe.ExecutionAttempt[string], x any) {
+	if r.tmode {
+		r.tline(M{"ev": name, "x": xOf(a.Context()), "L": layer, "att": a.Attempts(), "exe": a.Executions(), "ret": a.Retries(), "hdg": a.Hedges(),
+			"lr": resName(a.LastResult()), "le": projectErr(a.LastError())}, x)
+		return
+	}
 	r.add(fsEvent{Ev: name, L: layer, Att: a.Attempts(), Exe: a.Executions(), Ret: a.Retries(), Hdg: a.Hedges(),
 		Lr: resName(a.LastResult()), Le: projectErr(a.LastError()), X: rawOf(x)})
 }
 
 func (r *recorder) info(name string, layer int, a failsafe.ExecutionInfo, res string, err error, x any) {
+	if r.tmode {
+		r.tline(M{"ev": name, "x": xOf(a.Context()), "L": layer, "att": a.Attempts(), "exe": a.Executions(), "ret": a.Retries(), "hdg": a.Hedges(),
+			"lr": resName(res), "le": projectErr(err)}, x)
+		return
+	}
 	r.add(fsEvent{Ev: name, L: layer, Att: a.Attempts(), Exe: a.Executions(), Ret: a.Retries(), Hdg: a.Hedges(),
 		Lr: resName(res), Le: projectErr(err), X: rawOf(x)})
 }
 
 func (r *recorder) plain(name string, layer int, res string, x any) {
+	if r.tmode {
+		r.tline(M{"ev": name, "L": layer}, x)
+		return
+	}
+	if xm, ok := x.(M); ok {
+		delete(xm, "id")
+	}
 	r.add(fsEvent{Ev: name, L: layer, Att: -1, Lr: resName(res), Le: projectErr(nil), X: rawOf(x)})
 }
 
@@ -466,7 +523,7 @@ func buildStack(stack []desc, unit time.Duration, rec *recorder) *builtStack {
 					name = "StateChanged(no specific listener)"
 				}
 				specific = nil
-				rec.plain(name, evLayer, "", M{"old": stateName(e.OldState), "new": stateName(e.NewState), "m": metricsOf(e.Metrics())})
+				rec.plain(name, evLayer, "", M{"old": stateName(e.OldState), "new": stateName(e.NewState), "m": metricsOf(e.Metrics()), "id": d.Id})
 			})
 			cb := b.Build()
 			bs.breakers[d.Id] = cb
@@ -481,6 +538,9 @@ func buildStack(stack []desc, unit time.Duration, rec *recorder) *builtStack {
 			p = rl
 		case "bh":
 			b := bulkhead.Builder[string](uint(d.Max))
+			if d.Wait != 0 {
+				b.WithMaxWaitTime(time.Duration(d.Wait) * unit)
+			}
 			if rec.registered("OnFull") {
 				b.OnFull(func(e failsafe.ExecutionEvent[string]) { rec.attempt("OnFull", evLayer, e, nil) })
 			}
@@ -537,7 +597,12 @@ func buildStack(stack []desc, unit time.Duration, rec *recorder) *builtStack {
 			}
 			b := timeout.Builder[string](time.Duration(lim) * unit)
 			if rec.registered("OnTimeoutExceeded") {
-				b.OnTimeoutExceeded(func(e failsafe.ExecutionDoneEvent[string]) { rec.info("OnTimeoutExceeded", evLayer, e, e.Result, e.Error, nil) })
+				b.OnTimeoutExceeded(func(e failsafe.ExecutionDoneEvent[string]) {
+					rec.info("OnTimeoutExceeded", evLayer, e, e.Result, e.Error, nil)
+					if rec.tld > 0 {
+						time.Sleep(rec.tld)
+					}
+				})
 			}
 			p = b.Build()
 		case "hg":
